@@ -167,7 +167,8 @@ META["C08"] = {
     "exhaustive_dimensions": [],
     "sampled_dimensions": ["operation schedules", "documents and values (file lengths of every residue mod 64 via Padded<..>)", "loader x flag set", "actor assignment"],
     "expected_probes": ["read_on_other_thread", "dropped_on_other_thread", "case_moved_to_new_address", "shared_read_two_threads", "read_after_unlink",
-                        "read_after_file_rewritten", "store_over_longer_file", "drop_probe_saw_intact_data"],
+                        "read_after_file_rewritten", "store_over_longer_file", "drop_probe_saw_intact_data",
+                        "file_len_multiple_of_page", "file_len_page_plus_one", "file_len_page_minus_one", "file_larger_than_8KiB"],
     "real": WORLD_REAL,
     "stub": WORLD_STUB[:3],
     "assumptions": DOC_ASSUMPTIONS[:1] + [
